@@ -324,6 +324,16 @@ def random_ratio_point(r, m, h):
     return cells, headers, r.randrange(2**64), r.randrange(P), r.randrange(P), r.randrange(P), size
 
 
+def model_small_int(model, var):
+    try:
+        v = model[var]
+        if v is not None and z3.is_rational_value(v) and v.denominator_as_long() == 1 and 0 <= v.numerator_as_long() < 50:
+            return v.numerator_as_long()
+    except Exception:
+        return None
+    return None
+
+
 def ob_ratio(max_cells, max_headers):
     ob = obligation("C15.public_memory_ratio",
                     "get_public_memory_product_ratio(z, alpha, size) = z^size / ( prod_cells (z - (addr + alpha*value)) * prod_k header_k.prod "
@@ -356,10 +366,27 @@ def ob_ratio(max_cells, max_headers):
                 pa, pv = z3.Real("pad_addr"), z3.Real("pad_value")
                 cells = [(z3.Real("a%d" % i), z3.Real("v%d" % i)) for i in range(m)]
                 headers = [(z3.Real("hs%d" % k), z3.Real("hsize%d" % k), z3.Real("hh%d" % k), z3.Real("hprod%d" % k)) for k in range(h)]
-                it = Interp(alg=alg, modules=mods)
-                out = alg.lift(it.run(fn, [z, al, S], self_val=mk_public_input(cells, headers, pa, pv)))
-                for c, f, line in it.asserts:
-                    asserts_seen.add("%s:%d" % (f.split("/")[-1], line))
+                # all paths of the four inlined functions (a data-dependent `if` / `continue` forks the execution)
+                from symex import explore
+                def one_path(decider):
+                    it = Interp(alg=alg, modules=mods, decide=decider)
+                    o = alg.lift(it.run(fn, [z, al, S], self_val=mk_public_input(cells, headers, pa, pv)))
+                    for c, f, line in it.asserts:
+                        asserts_seen.add("%s:%d" % (f.split("/")[-1], line))
+                    return o
+                def cond_z3(c):
+                    if c.op == "not":
+                        return z3.Not(cond_z3(c.a))
+                    if c.op not in ("==", "!="):
+                        raise rsparse.Unsupported(repo_path(PUBMEM), 0, "ordering comparison %s on symbolic field elements in the product ratio" % c.op)
+                    a, b = alg.lift(c.a), alg.lift(c.b)
+                    return (a == b) if c.op == "==" else (a != b)
+                paths = explore(one_path, max_paths=64)
+                path_goals = []
+                for trace, o in paths:
+                    pc = [cond_z3(c) if bb else z3.Not(cond_z3(c)) for c, bb, _ in trace]
+                    path_goals.append((pc, o))
+                out = path_goals[0][1]
                 den = z3.RealVal(1)
                 for a, v in cells:
                     den = den * (z - (a + al * v))
@@ -371,7 +398,8 @@ def ob_ratio(max_cells, max_headers):
                 padpow = alg.powf(pad, S - L)
                 spec = alg.powf(z, S) / (den * padpow)
                 nz = [d != 0 for d in alg.divisors] + [den != 0, padpow != 0]
-                verdict, model = check(nz + [out != spec], st, want_model=False, timeout_s=20)
+                goal = z3.Or(*[z3.And(*(pc + [o != spec])) for pc, o in path_goals])
+                verdict, model = check(nz + [goal], st, want_model=True, timeout_s=20)
                 if verdict == "unsat":
                     continue
                 if verdict == "inconclusive":
@@ -379,6 +407,14 @@ def ob_ratio(max_cells, max_headers):
                 # sat: the model interprets the uninterpreted pow arbitrarily -> replay on seeded concrete points of this shape
                 for _ in range(4):
                     pt = random_ratio_point(r, m, h)
+                    # keep the model's header sizes when they are small integers (a branch on `size == 0` is only taken there)
+                    if model is not None:
+                        hs = [list(hd) for hd in pt[1]]
+                        for k in range(h):
+                            mv = model_small_int(model, headers[k][1])
+                            if mv is not None:
+                                hs[k][1] = mv
+                        pt = (pt[0], [tuple(x) for x in hs]) + tuple(pt[2:])
                     req = ratio_request(*pt)
                     ans = replay([req])[0]
                     exp = ratio_spec_mod_p(*pt)
